@@ -50,33 +50,33 @@ theorem consts_match_model_epoch1582 :
 /-- `NewFILETIMEFromTime`: scale, sub-second divisor, epoch -/
 theorem consts_match_model_filetimeOfTime (sec nsec : Int64) :
     filetimeOfTime sec nsec
-      = sec * Int64.ofNat ConstsC15.ftNew_mul + nsec / Int64.ofNat ConstsC15.ftNew_div + Int64.ofNat ConstsC15.ftNew_epoch := rfl
+      = sec * Int64.ofNat ConstsC15.ftNew_mul + nsec / Int64.ofNat ConstsC15.ftNew_div + Int64.ofNat ConstsC15.ftNew_epoch := by exact rfl
 
 /-- `NewFILETIMEFromTime`: masks and shift of the two halves -/
 theorem consts_match_model_filetimeSplit (value : Int64) :
     filetimeSplit value
       = ((value &&& Int64.ofNat ConstsC15.ftNew_lo_mask).toUInt64.toUInt32,
-         ((value >>> Int64.ofNat ConstsC15.ftNew_hi_shift) &&& Int64.ofNat ConstsC15.ftNew_hi_mask).toUInt64.toUInt32) := rfl
+         ((value >>> Int64.ofNat ConstsC15.ftNew_hi_shift) &&& Int64.ofNat ConstsC15.ftNew_hi_mask).toUInt64.toUInt32) := by exact rfl
 
 /-- `ToInt64`: masks, shift, and the nesting of `&`, `<<`, `|` in the source expression -/
 theorem consts_match_model_filetimeToInt64 (lo hi : UInt32) :
     filetimeToInt64 lo hi
       = ((hi.toUInt64.toInt64 &&& Int64.ofNat ConstsC15.ftToInt64_himask) <<< Int64.ofNat ConstsC15.ftToInt64_shift)
-          ||| (lo.toUInt64.toInt64 &&& Int64.ofNat ConstsC15.ftToInt64_lomask) := rfl
+          ||| (lo.toUInt64.toInt64 &&& Int64.ofNat ConstsC15.ftToInt64_lomask) := by exact rfl
 
 theorem consts_match_model_filetimeToInt64_shape :
     ConstsC15.ftToInt64_shape
-      = "(| (<< (& (int64 ft.DwHighDateTime) 4294967295) 32) (& (int64 ft.DwLowDateTime) 4294967295))" := rfl
+      = "(| (<< (& (int64 ft.DwHighDateTime) 4294967295) 32) (& (int64 ft.DwLowDateTime) 4294967295))" := by exact rfl
 
 /-- `GetTime` -/
 theorem consts_match_model_filetimeGetTime (ticks : Int64) :
     filetimeGetTime ticks
       = goUnix (ticks / Int64.ofNat ConstsC15.ftGetTime_div - Int64.ofNat ConstsC15.ftGetTime_epoch / Int64.ofNat ConstsC15.ftGetTime_epochdiv)
-          ((ticks % Int64.ofNat ConstsC15.ftGetTime_mod) * Int64.ofNat ConstsC15.ftGetTime_mul) := rfl
+          ((ticks % Int64.ofNat ConstsC15.ftGetTime_mod) * Int64.ofNat ConstsC15.ftGetTime_mul) := by exact rfl
 
 theorem consts_match_model_filetimeGetTime_shape :
     ConstsC15.ftGetTime_shape
-      = "(time.Unix (- (/ ticks 10000000) (/ 116444736000000000 10000000)) (* (% ticks 10000000) 100))" := rfl
+      = "(time.Unix (- (/ ticks 10000000) (/ 116444736000000000 10000000)) (* (% ticks 10000000) 100))" := by exact rfl
 
 /-- `strconv.ParseInt(value, 10, 64)`: base and width -/
 theorem consts_match_model_parseInt64 (s : Bytes) :
@@ -103,14 +103,14 @@ theorem consts_match_model_ldapToUnix (value : Bytes) :
         | some v =>
           if v < Int64.ofNat ConstsC15.ldapToUnix_clampBelow then 0
           else (v - Int64.ofNat ConstsC15.ldapToUnix_epoch) / Int64.ofNat ConstsC15.ldapToUnix_div
-      else 0 := rfl
+      else 0 := by exact rfl
 
 theorem consts_match_model_ldapToUnix_shape :
-    ConstsC15.ldapToUnix_shape = "(/ (- valueInt 116444736000000000) (int64 10000000))" := rfl
+    ConstsC15.ldapToUnix_shape = "(/ (- valueInt 116444736000000000) (int64 10000000))" := by exact rfl
 
 /-- `ConvertUnixTimeStampToLDAPTimeStamp` -/
 theorem consts_match_model_unixToLdap (sec : Int64) :
-    unixToLdap sec = sec * Int64.ofNat ConstsC15.unixToLdap_mul + Int64.ofNat ConstsC15.unixToLdap_add_epoch := rfl
+    unixToLdap sec = sec * Int64.ofNat ConstsC15.unixToLdap_mul + Int64.ofNat ConstsC15.unixToLdap_add_epoch := by exact rfl
 
 /-- `ConvertLDAPDurationToSeconds` -/
 theorem consts_match_model_ldapDurationToSeconds (value : Bytes) :
@@ -121,11 +121,11 @@ theorem consts_match_model_ldapDurationToSeconds (value : Bytes) :
         | some v =>
           let q := v / Int64.ofNat ConstsC15.ldapDuration_div
           if q < 0 then -q else q
-      else 0 := rfl
+      else 0 := by exact rfl
 
 /-- `ConvertSecondsToLDAPDuration` -/
 theorem consts_match_model_secondsToLdapDuration (v : Int64) :
-    secondsToLdapDuration v = showInt64 (v * Int64.ofNat ConstsC15.secToLdapDuration_mul) := rfl
+    secondsToLdapDuration v = showInt64 (v * Int64.ofNat ConstsC15.secToLdapDuration_mul) := by exact rfl
 
 /-- `NewDateTime`: the epoch difference computed from the two `time.Date` calls, divisor, modulus, scale -/
 theorem consts_match_model_newDateTime (ticks : UInt64) :
@@ -134,7 +134,7 @@ theorem consts_match_model_newDateTime (ticks : UInt64) :
       else
         let t := goUnix ((ticks / UInt64.ofNat ConstsC15.kc_newDateTime_div).toInt64 - Int64.ofInt kcSecondsBetween)
                    ((ticks % UInt64.ofNat ConstsC15.kc_newDateTime_mod).toInt64 * Int64.ofNat ConstsC15.kc_newDateTime_mul)
-        .at ticks t.1 t.2 := rfl
+        .at ticks t.1 t.2 := by exact rfl
 
 /-- `ConvertFromBinaryTime`: 64-bit little-endian read; a stored zero is the date literal 1601-01-01 -/
 theorem consts_match_model_convertFromBinaryTime :
@@ -147,11 +147,11 @@ theorem consts_match_model_convertFromBinaryTime :
 theorem consts_match_model_binaryTimeTicks (sec nsec : Int64) :
     binaryTimeTicks sec nsec
       = (sec + Int64.ofNat ConstsC15.kc_toBinary_sec1601).toUInt64 * UInt64.ofNat ConstsC15.kc_toBinary_mul
-          + (nsec / Int64.ofNat ConstsC15.kc_toBinary_div).toUInt64 := rfl
+          + (nsec / Int64.ofNat ConstsC15.kc_toBinary_div).toUInt64 := by exact rfl
 
 theorem consts_match_model_binaryTimeTicks_shape :
     ConstsC15.kc_toBinary_shape
-      = "(+ (* (uint64 (+ (date.Unix) 11644473600)) 10000000) (uint64 (/ (date.Nanosecond) 100)))" := rfl
+      = "(+ (* (uint64 (+ (date.Unix) 11644473600)) 10000000) (uint64 (/ (date.Nanosecond) 100)))" := by exact rfl
 
 /-- `UUIDv1.GetTime` and `UUIDv2.GetTime` -/
 theorem consts_match_model_uuidGetTime (ts : UInt64) :
